@@ -271,6 +271,10 @@ def decide(pid, tier, spec, seed, t0, workdir, ev_path):
             if concrete:
                 fh.write(open(concrete).read())
                 fh.write('\n')
+                for f in violations:
+                    kf = f.get('kani', {}).get('replay_file') if f.get('kani') else None
+                    if kf and kf != concrete and os.path.exists(kf):
+                        fh.write('--- further counterexample (replay separately): ' + kf + '\n')
             else:
                 fh.write('kind: none\n')
             fh.write(f'property: {pid}\n')
